@@ -1253,8 +1253,18 @@ func (w *vmWalker) absOf(e ast.Expr, st *vmState) (absVal, bool) {
 				return absVal{kind: akOperand, op: st.ip + k}, true
 			}
 		}
-		// ...Functions[opK]
+		// ...Functions[opK]: an element of a slice of compiled function records selected by an operand (whatever the
+		// field that holds the slice is called)
+		isFuncs := false
 		if se, ok := x.X.(*ast.SelectorExpr); ok && se.Sel.Name == "Functions" {
+			isFuncs = true
+		}
+		if t := info.TypeOf(x.X); t != nil {
+			if sl, ok := t.Underlying().(*types.Slice); ok && isNamed(sl.Elem(), modPath+"/internal/compiler", "Function") {
+				isFuncs = true
+			}
+		}
+		if isFuncs {
 			if v, ok := w.absOf(x.Index, st); ok && v.kind == akOperand {
 				return absVal{kind: akFunc, atom: fmt.Sprintf("op%d", v.op)}, true
 			}
@@ -1294,7 +1304,23 @@ func (w *vmWalker) absOf(e ast.Expr, st *vmState) (absVal, bool) {
 		// code[ip : ip+n]: the operands that follow
 		if id, ok := x.X.(*ast.Ident); ok && w.cobj() != nil && info.Uses[id] == w.cobj() && x.Low != nil {
 			if k, ok := w.ipOffset(x.Low); ok {
-				return absVal{kind: akCodeSlice, base: st.ip + k}, true
+				v := absVal{kind: akCodeSlice, base: st.ip + k}
+				// its length, when the upper bound is ip + <linear form over operands>
+				if be, ok := x.High.(*ast.BinaryExpr); ok && be.Op == token.ADD {
+					if hid, ok := be.X.(*ast.Ident); ok && info.Uses[hid] == w.iobj() {
+						if l, ok := w.evalLin(be.Y, st); ok {
+							v.lin = l.Sub(linC(k))
+						}
+					}
+				}
+				return v, true
+			}
+		}
+	case *ast.UnaryExpr:
+		// &f: the address of a local that holds a compiled function record
+		if x.Op == token.AND {
+			if v, ok := w.absOf(x.X, st); ok && v.kind == akFunc {
+				return v, true
 			}
 		}
 	case *ast.CallExpr:
@@ -1337,6 +1363,15 @@ func (w *vmWalker) evalLin(e ast.Expr, st *vmState) (Lin, bool) {
 		return linC(int(v)), true
 	}
 	switch x := e.(type) {
+	case *ast.CallExpr:
+		// len(<slice of the operands that follow>)
+		if isIdent(x.Fun, "len") && len(x.Args) == 1 {
+			if id, ok := x.Args[0].(*ast.Ident); ok {
+				if v, ok := st.env[info.Uses[id]]; ok && v.kind == akCodeSlice && (len(v.lin.T) > 0 || v.lin.C != 0) {
+					return v.lin, true
+				}
+			}
+		}
 	case *ast.Ident:
 		if v, ok := st.env[info.Uses[x]]; ok {
 			switch v.kind {
